@@ -39,6 +39,7 @@ async fn mutual(mut sim: Sim, seed: u64, gated: bool) -> Result<Value, String> {
         limit: None,
         idle_ms: 10_000,
         keepalive_ms: Some(3_000),
+        hetero: false,
     };
     let keys = sim::sorted_keys(2, &mut sim.rng);
     for k in keys {
